@@ -36,3 +36,11 @@ func ZZSymbolicController(rf int) *Controller {
 
 func (c *Controller) ZZLockDepth() int { return zzLockDepth(&c.RWMutex) }
 func ZZAddr(i int) string            { return zzAddrs[i] }
+
+// ZZWriteLockUnlock takes and releases the controller's write lock (what every I/O and
+// every membership-changing request does first).
+func (c *Controller) ZZWriteLockUnlock() { c.Lock(); c.Unlock() }
+
+// ZZOnReplicaCall installs f to run at the start of every call into a replica (a network
+// round trip, i.e. a scheduling point); nil removes it.
+func ZZOnReplicaCall(f func()) { zzmodel.OnCall = f }
